@@ -39,7 +39,9 @@ Envs      == {"all", "none"}   \* UDP and ICMP handlers enabled / disabled
 Classes(atyp) ==
   CASE atyp = 1 -> {"rand", "zero", "loop", "bcast"}
     [] atyp = 4 -> {"rand", "zero", "loop", "mapped"}
-    [] atyp = 3 -> {"alnum", "colon", "ip4text", "ip6text", "nul", "utf8", "space", "bracket"}
+    [] atyp = 3 -> {"alnum", "colon", "ip4text", "ip6text", "nul", "utf8", "space", "punct",
+                    "bracketed",    \* "[name]": as a host:port string it reads as "name"
+                    "unbalanced"}   \* "n]ame": cannot be written as host:port at all
     [] OTHER -> {"junk"}
 BaseClass(atyp) == CASE atyp \in {1, 4} -> "rand" [] atyp = 3 -> "alnum" [] OTHER -> "junk"
 Lens(atyp) == CASE atyp = 1 -> {4} [] atyp = 4 -> {16} [] atyp = 3 -> DomLens [] OTHER -> {6}
@@ -55,6 +57,7 @@ Shape(v, c, a, l, cl, p, k, e) ==
 KeyCuts(a, l) == {0, 1, 3, 4, 5, Total(a, l) - 3, Total(a, l) - 2, Total(a, l) - 1, Total(a, l)} \cap 0..Total(a, l)
 
 ClassesFor(a, l) == IF a = 3 /\ l = 0 THEN {"alnum"}
+                    ELSE IF a = 3 /\ l < 3 THEN Classes(a) \ {"ip4text", "ip6text", "bracketed"}
                     ELSE IF a = 3 /\ l # 11 THEN Classes(a) \ {"ip4text", "ip6text"}
                     ELSE Classes(a)
 
@@ -108,7 +111,9 @@ Impl(s) ==
   ELSE IF ~Complete(s)                                         \* address or port truncated
     THEN (IF "DevExecuteBeforePort" \in Dev /\ s.cmd = 1 /\ s.cut + 2 >= Total(s.atyp, s.alen)
             THEN Out(0, "connect") ELSE Out(NoRep, "none"))
-  ELSE CASE s.cmd = 1 -> Out(0, "connect")                     \* the harness' dialer succeeds
+  ELSE CASE s.cmd = 1 -> IF s.acls \in {"bracketed", "unbalanced"}
+                           THEN Out(4, "none")                  \* name does not survive the host:port encoding
+                           ELSE Out(0, "connect")               \* the harness' dialer succeeds
          [] s.cmd = 3 -> IF s.env = "all" THEN Out(0, "udp") ELSE Out(7, "none")
          [] s.cmd = 4 -> IF s.env = "none" THEN Out(7, "none")
                          ELSE IF s.atyp = 3 \/ s.acls = "zero" THEN Out(8, "none")   \* ICMP needs a specified IP
